@@ -7,7 +7,7 @@ sys.path.insert(0, os.path.dirname(os.path.dirname(os.path.abspath(__file__))))
 from vlib import core, mir as M, rules_panic as RP
 m = M.get_mir(); r = m.reachable(['main::main'])
 inv = RP.inventory(m, r)
-g = collections.Counter((i['owner'], i['kind'], i['what'], i['producer'], i['mac']) for i in inv)
+g = collections.Counter((i['owner'], i['kind'], i['what'], i['producer'], i['mac']) for i in inv if not i.get('mech'))  # u32/usize additions: ARITH rule, no rows
 EM = ('bash::write_completion_script', 'fish::write_completion_script', 'zsh::write_completion_script', 'pwsh::write_completion_script')
 COMPL = ('dfa::DFA::get_command_completions', 'dfa::DFA::get_completion_compadds', 'dfa::DFA::get_completion_subwords', 'dfa::DFA::get_literal_completions')
 
@@ -15,7 +15,6 @@ def classify(o, k, w, p, mac):
     if 'ops::Index<' in o: return 'ARENA', 'bounds check of the arena behind an id newtype; ids are created only by alloc() and arenas never shrink (re-checked on every run)'
     if o.endswith('InternPool::lookup'): return 'INTERN', 'id newtypes of intern pools are created only by the pool itself (re-checked on every run)'
     if k == 'exit': return 'EXIT', 'exit status is the constant 1 (re-checked on every run)'
-    if k == 'assert:overflow:Add': return 'ARITH', 'counter or id + array base: bounded by the number of states, literals, positions or input bytes; memory is exhausted long before the integer range'
     if o in EM:
         if k == 'assert:bounds': return 'GUARD', 'chunk[0] under `chunk.len() > 1`'
         if k == 'panic': return 'GUARD', '`let [(id, _)] = chunk else unreachable` in the else of `chunk.len() > 1`; chunk_by never yields an empty chunk'
